@@ -64,6 +64,16 @@ CLAIMED = {
                 "correct or the characterised wrong value is accepted.",
         "design_ref": "DESIGN.md §3 C09",
     },
+    "C10": {
+        "text": "Kernel: _check_strict_parsing with symbolic strict/missing/required bits raises iff a required part is "
+                "missing. Relation: in ONE symbolic path the public entry is called three times - lax with reference b1, "
+                "strict (STRICT_PARSING or each REQUIRE_PARTS subset) with b1, strict with an independent b2 (and an "
+                "independent clock for the custom-format parser) - on English templates for every subset of {weekday, "
+                "day, month, year, time}, strptime formats, timestamps and no-space dates with all digits and both "
+                "references symbolic; z3 shows per path: strict in {lax, None}; a strict result only when the template "
+                "states the required parts; required parts equal for both references. The multilingual corpus is outside.",
+        "design_ref": "DESIGN.md §3 C10",
+    },
     "C11": {
         "text": "For entries of the LOADED timezone table (42 offsets x up to 11 spellings, ~390 abbreviations in upper "
                 "and lower case and in parentheses; quick tier: one spelling per offset, every non-plain-uppercase name "
@@ -83,6 +93,15 @@ CLAIMED = {
                 "re-expressed in the target zone (pair arithmetic on ordinal/µs-of-day) and that awareness follows the "
                 "statement's table. Zones with DST transitions are outside (stated).",
         "design_ref": "DESIGN.md §3 C12",
+    },
+    "C14": {
+        "text": "For ~46 strptime formats (numeric, English month/weekday names, 12h/24h, %f, two-digit years, partial and "
+                "year-less formats, formats whose rendering the sanitiser/heuristics would rewrite) and for localized "
+                "month names of visited languages, the public entry get_date_data(date_formats=[f]) is executed with every "
+                "expressed field, the PREFER_* choices and the clock symbolic; the stdlib _strptime is executed through "
+                "the same loader; z3 shows per path that the expressed fields come back, missing day/month follow the "
+                "preferences (clock-based 'current'), a missing year is the clock's year, and the format's reading wins.",
+        "design_ref": "DESIGN.md §3 C14",
     },
     "C19": {
         "text": "The real _load_offsets and the real C pickle.load are executed over a file proxy whose length k is a z3 "
